@@ -6,6 +6,11 @@ pub open spec fn flag_bits_ok() -> bool {
     &&& (0u8 & 0x20u8 == 0)
     &&& (0x01u8 & 0x20u8 == 0) && (0x02u8 & 0x20u8 == 0) && (0x04u8 & 0x20u8 == 0) && (0x08u8 & 0x20u8 == 0)
     &&& (0x10u8 & 0x20u8 == 0) && (0x40u8 & 0x20u8 == 0)
+    // the same for the HAVE_TAGS bit
+    &&& (forall|c: u8, k: u8| #![trigger (c | k) & 0x40u8] (k & 0x40u8 == 0) ==> (((c | k) & 0x40u8 == 0x40u8) <==> (c & 0x40u8 == 0x40u8)))
+    &&& (forall|c: u8| #![trigger c | 0x40u8] (c | 0x40u8) & 0x40u8 == 0x40u8)
+    &&& (0u8 & 0x40u8 == 0) && (0x01u8 & 0x40u8 == 0) && (0x02u8 & 0x40u8 == 0) && (0x04u8 & 0x40u8 == 0) && (0x08u8 & 0x40u8 == 0)
+    &&& (0x10u8 & 0x40u8 == 0) && (0x20u8 & 0x40u8 == 0)
 }
 pub proof fn lemma_flag_bits()
     ensures flag_bits_ok()
@@ -24,4 +29,17 @@ pub proof fn lemma_flag_bits()
     assert(0x08u8 & 0x20u8 == 0) by (bit_vector);
     assert(0x10u8 & 0x20u8 == 0) by (bit_vector);
     assert(0x40u8 & 0x20u8 == 0) by (bit_vector);
+    assert forall|c: u8, k: u8| #![trigger (c | k) & 0x40u8] (k & 0x40u8 == 0) implies (((c | k) & 0x40u8 == 0x40u8) <==> (c & 0x40u8 == 0x40u8)) by {
+        assert((k & 0x40u8 == 0) ==> (((c | k) & 0x40u8 == 0x40u8) <==> (c & 0x40u8 == 0x40u8))) by (bit_vector);
+    }
+    assert forall|c: u8| #![trigger c | 0x40u8] (c | 0x40u8) & 0x40u8 == 0x40u8 by {
+        assert((c | 0x40u8) & 0x40u8 == 0x40u8) by (bit_vector);
+    }
+    assert(0u8 & 0x40u8 == 0) by (bit_vector);
+    assert(0x01u8 & 0x40u8 == 0) by (bit_vector);
+    assert(0x02u8 & 0x40u8 == 0) by (bit_vector);
+    assert(0x04u8 & 0x40u8 == 0) by (bit_vector);
+    assert(0x08u8 & 0x40u8 == 0) by (bit_vector);
+    assert(0x10u8 & 0x40u8 == 0) by (bit_vector);
+    assert(0x20u8 & 0x40u8 == 0) by (bit_vector);
 }
